@@ -4,8 +4,11 @@ from harness.common import bud
 from harness.props import c01, c05
 
 PROP = "C16"
-MODULES = ["CassisModel.Properties.C16Chain", "CassisModel.Properties.C01", "CassisModel.Properties.C02", "CassisModel.Properties.C04", "CassisModel.Properties.C13", "CassisModel.Properties.C16ChainColl", "CassisModel.Properties.C16ChainEmbedded", "CassisModel.Properties.C16ChainEmbedded2"]
+MODULES = ["CassisModel.Properties.C16Chain", "CassisModel.Properties.C01", "CassisModel.Properties.C02", "CassisModel.Properties.C04", "CassisModel.Properties.C13", "CassisModel.Properties.C16ChainColl", "CassisModel.Properties.C16ChainEmbedded", "CassisModel.Properties.C16ChainEmbedded2", "CassisModel.Properties.C16ChainEmbedded3"]
 THEOREMS = [
+    "Cassis.flagCoherentChain_of_history",
+    "Cassis.multiRes_of_flagCoherentChain",
+    "Cassis.flagCoherentChain_strictly_weaker",
     "Cassis.chain_json_xmi_minimal_coll",
     "Cassis.chain_xmi_json_full_coll",
     "Cassis.chain_xmi_json_minimal_coll",
